@@ -13,6 +13,11 @@
    the code builds are built here the same way. A nil []byte is modelled as the empty key /
    the value None; keys are assumed non-empty (service limit 1..4096 bytes), which is what
    makes "prevKey != nil" in findNextUniqueKey equivalent to "there is a previous key".
+   Values are byte lists, so "a put of a nil value" is not expressible: the model is the code
+   since Buffer.Put and MemTable.Put store an empty value for nil (before that repair a
+   transactional put of nil read as a deletion inside the transaction, defect D26).
+   An SSTable is its logical entry list (that the file format reads back what was written is
+   property C11).
    Loops of the Go code that have no structural bound here run on fuel = [i_fuel] (an upper
    bound of the number of entries ahead); IterProofs.v shows the loops finish within it (the
    results are proved equal to closed forms that do not mention fuel).
